@@ -30,6 +30,7 @@ def strat(tier):
         # 'log': the evidence is a log-discrepancy (values on both sides of 0, so that a threshold of exactly 0 is a natural choice)
         'yscale': st.sampled_from(['raw', 'raw', 'log']),
         'bounds_keys_reversed': st.booleans(),
+        'copy_branch': st.sampled_from([False, False, True]),
         'prior': st.sampled_from(['uniform', 'normal']),
         'history': st.lists(st.sampled_from(['sample-phase', 'update', 'update-optimize', 'optimize', 'plain-predict']), min_size=1, max_size=5),
     }))
@@ -127,6 +128,25 @@ def _run_case(case, known):
                 raise Violation('C10:update-changed-earlier-evidence', 'earlier evidence changed by update %d; %s' % (ci, ctx))
             if nX.shape != expX.shape or not np.array_equal(nX, expX) or not np.array_equal(nY, expY):
                 raise Violation('C10:update-evidence-order', 'after update %d the evidence is not the earlier evidence followed by the new rows in order; %s' % (ci, ctx))
+    # a copy of the surrogate is a surrogate of its own: evidence added to the copy does not reach the original and vice versa
+    # (two optimisation runs started from one pre-fitted surrogate)
+    if case.get('copy_branch'):
+        with must_not_raise(P, 'copy() and separate updates; ' + ctx):
+            baseX, baseY = np.array(gp.X).copy(), np.array(gp.Y).copy()
+            twin = gp.copy()
+            Xa, ya = _evidence(case, rs, lo, w, 2)
+            Xb, yb = _evidence(case, rs, lo, w, 3)
+            twin.update(Xa.copy(), ya.copy(), optimize=False)
+            gp2 = gp.copy()
+            gp2.update(Xb.copy(), yb.copy(), optimize=False)
+        for nm_, g_, Xn, yn in (('first copy', twin, Xa, ya), ('second copy', gp2, Xb, yb)):
+            gx, gy = np.array(g_.X), np.array(g_.Y)
+            if gx.shape != (len(baseX) + len(Xn), d) or not (np.array_equal(gx[:len(baseX)], baseX) and np.array_equal(gx[len(baseX):], Xn)
+                                                             and np.array_equal(gy[:len(baseY), 0], baseY[:, 0]) and np.array_equal(gy[len(baseY):, 0], yn)):
+                raise Violation('C10:copies-share-evidence', 'the %s of the surrogate, updated on its own, does not hold the common evidence followed by its own rows (the other copy was updated with other rows); %s' % (nm_, ctx))
+        if not (np.array_equal(np.array(gp.X), baseX) and np.array_equal(np.array(gp.Y), baseY)):
+            raise Violation('C10:copies-share-evidence', 'updating copies of the surrogate changed the evidence of the original; %s' % ctx)
+        labels.append('copies-updated-separately')
     yall = np.concatenate(allY)
     thr = case['threshold']
     if thr == 'far-below':
